@@ -293,10 +293,10 @@ static std::string exceptionName() {
 }
 
 static void callEv(const std::string& api) { flushMem(); emit("{\"e\":\"Call\",\"api\":" + jstr(api) + "}\n"); }
-static void retEv(const std::string& api, const char* status, int code, const std::string& exc) {
+static void retEv(const std::string& api, const char* status, int code, const std::string& exc, const std::string& msg = std::string()) {
     flushMem();
     emit("{\"e\":\"ApiReturn\",\"api\":" + jstr(api) + ",\"status\":\"" + status + "\",\"code\":" + std::to_string(code) +
-         ",\"exception\":" + jstr(exc) + "}\n");
+         ",\"exception\":" + jstr(exc) + (msg.empty() ? std::string() : ",\"msg\":" + jstr(msg)) + "}\n");
 }
 
 struct Child {
@@ -313,7 +313,9 @@ struct Child {
         int code = 0; std::string exc = "none"; const char* status = "ok";
         try { code = f(); if (code != 0) status = "error"; }
         catch (...) { status = "exception"; exc = exceptionName(); }
-        retEv(api, status, code, exc);
+        // the reported error text (diagnostics only: shows WHERE a failing transformation failed)
+        if (code != 0 && xt && exc == "none") { const char* m = xt->getLastError(); if (m) { std::string t = std::string(m).substr(0, 160); for (auto& ch : t) if ((unsigned char)ch >= 0x7f || (unsigned char)ch < 0x20) ch = ' '; exc = "none: " + t; } }
+        retEv(api, status, code, exc.compare(0, 6, "none: ") == 0 ? "none" : exc, exc.compare(0, 6, "none: ") == 0 ? exc.substr(6) : std::string());
         return code == 0 && exc == "none";
     }
 
